@@ -146,6 +146,58 @@ func init() {
 					w.Class("c17.multi-page-3-denoms")
 				}
 			}
+			// arbitrary single page requests (any denomination as start key, both directions, any limit): the page the
+			// enterprise service serves = the page the bank serves for the same request, native denomination adjusted
+			denoms := bankCoins.Denoms()
+			for i, d := range denoms {
+				if (plan+i)%2 == 1 {
+					continue // half of the start keys per height; the other half at the next height
+				}
+				for _, rev := range []bool{false, true} {
+					pr := &query.PageRequest{Key: []byte(d), Limit: uint64(1 + (plan+i)%(n+1)), Reverse: rev}
+					if (plan+i)%5 == 0 {
+						pr = &query.PageRequest{Offset: uint64(i), Limit: pr.Limit, Reverse: rev, CountTotal: i%2 == 0}
+					}
+					var br banktypes.QueryTotalSupplyResponse
+					if err := w.C.Query("/cosmos.bank.v1beta1.Query/TotalSupply", &banktypes.QueryTotalSupplyRequest{Pagination: pr}, &br); err != nil {
+						continue
+					}
+					for _, m := range []string{"TotalSupply", "TotalSupplyOverwrite"} {
+						var er enttypes.QueryTotalSupplyResponse
+						if err := w.C.Query(qEnt+m, &enttypes.QueryTotalSupplyRequest{Pagination: pr}, &er); err != nil {
+							w.Fail("C17", "%s(%+v) failed: %v (the bank serves this request)", m, *pr, err)
+							return
+						}
+						if len(er.Supply) != len(br.Supply) {
+							w.Fail("C17", "%s(key=%q offset=%d limit=%d reverse=%v) lists %s, the bank lists %s for the same request", m, pr.Key, pr.Offset, pr.Limit, pr.Reverse, er.Supply, br.Supply)
+							return
+						}
+						for j, c := range br.Supply {
+							g := er.Supply[j]
+							if g.Denom != c.Denom || g.Amount.BigInt().Cmp(want(c.Denom)) != 0 {
+								w.Fail("C17", "%s(key=%q offset=%d limit=%d reverse=%v) reports %s at position %d, expected %s%s (bank supply %s, locked %s%s)", m, pr.Key, pr.Offset, pr.Limit, pr.Reverse, g, j, want(c.Denom), c.Denom, c.Amount, locked, denom)
+								return
+							}
+						}
+						bn, en := []byte(nil), []byte(nil)
+						bt, et := uint64(0), uint64(0)
+						if br.Pagination != nil {
+							bn, bt = br.Pagination.NextKey, br.Pagination.Total
+						}
+						if er.Pagination != nil {
+							en, et = er.Pagination.NextKey, er.Pagination.Total
+						}
+						if string(bn) != string(en) || bt != et {
+							w.Fail("C17", "%s(key=%q offset=%d limit=%d reverse=%v) answers next_key=%q total=%d, the bank answers next_key=%q total=%d", m, pr.Key, pr.Offset, pr.Limit, pr.Reverse, en, et, bn, bt)
+							return
+						}
+						w.Class("c17.single-page-probe")
+						if rev && pr.Key != nil && d > denom {
+							w.Class("c17.reverse-page-from-key-above-native")
+						}
+					}
+				}
+			}
 			// TotalUnlocked and EnterpriseSupply
 			var tu enttypes.QueryTotalUnlockedResponse
 			if err := w.C.Query(qEnt+"TotalUnlocked", &enttypes.QueryTotalUnlockedRequest{}, &tu); err != nil {
